@@ -289,8 +289,7 @@ fn main() {
     for i in 0..n {
         let mut r = rng.fork();
         let dbd = gen_db(&mut r, 3, if args.quick() { 8 } else { 20 });
-        let g = QGen { db: &dbd, subqueries: false, force_from: None };
-        let mut body = g.gen_core(&mut r, false);
+        let mut body = { let g = QGen { db: &dbd, subqueries: false, force_from: None }; g.gen_core(&mut r, false) };
         let mut star = None;
         if r.chance(1, 5) {
             // wildcard definition over one base table, optional WHERE
@@ -301,6 +300,19 @@ fn main() {
             body.distinct = false;
             body.select = (0..dbd.tables[t].schema.cols.len()).map(E::Col).collect();
             star = Some(t);
+        }
+        // every 10th case: a view over a table of 100-300 rows (the size from which the scan of a
+        // view / CTE uses the columnar predicate path), outer WHERE = AND/OR tree of simple comparisons
+        let large = i % 10 == 9;
+        let mut dbd = dbd;
+        if large {
+            dbd = gen_db(&mut r, 3, 4);
+            let t = r.below(3) as usize;
+            let n = *r.pick(&[100usize, 101, 128, 129, 200, 256, 300]);
+            dbd.tables[t].rows = gen_rows(&mut r, &dbd.tables[t].schema, n);
+            body = Core { from: From::Table(t), where_: None, group: None, select: (0..dbd.tables[t].schema.cols.len()).map(E::Col).collect(), distinct: false, order_by: vec![], limit: None, offset: 0 };
+            star = if r.chance(1, 2) { Some(t) } else { None };
+            rep.count("large_view_case");
         }
         let mut c = Case { dbd: dbd.clone(), body, star, unq: r.chance(1, 4), outer: Core { from: From::Table(3), where_: None, group: None, select: vec![], distinct: false, order_by: vec![], limit: None, offset: 0 }, with_cols: star.is_none() && r.chance(1, 3) };
         let db2 = with_v(&c);
@@ -331,8 +343,18 @@ fn main() {
                 c.unq = false;
             }
         }
+        if large {
+            outer_from = From::Table(3);
+            c.unq = r.chance(3, 4);
+        }
         let og = QGen { db: &db2, subqueries: false, force_from: Some(outer_from) };
         c.outer = og.gen_core(&mut r, true);
+        if large {
+            if let From::Table(t) = c.body.from {
+                let probe = TableDef { schema: db2.tables[3].schema.clone(), rows: c.dbd.tables[t].rows.clone() };
+                c.outer.where_ = Some(Pred::Ex(simple_pred_tree(&mut r, &probe)));
+            }
+        }
         if i < 4 {
             let (create, vq, _, _) = forms(&c, &db2);
             rep.sample(serde_json::json!({"create_view": create, "outer": vq}));
